@@ -100,9 +100,10 @@ class BoundMethod:
 
 
 class Closure:
-    def __init__(self, node, defaults):
+    def __init__(self, node, defaults, env=None):
         self.node = node            # FunctionDef or Lambda
         self.defaults = defaults    # evaluated default values (by parameter name)
+        self.env = env or {}        # enclosing-scope values at definition (used where the calling frame lacks the name)
 
 
 class RepoFunction:
@@ -744,7 +745,9 @@ class Exec:
         args = node.args
         for a, d in zip(args.args[len(args.args) - len(args.defaults):], args.defaults):
             defaults[a.arg] = self.eval(d, st)
-        st.locals[node.name] = Closure(node, defaults)
+        free = {n.id for n in ast.walk(node) if isinstance(n, ast.Name) and isinstance(n.ctx, ast.Load)}
+        env = {k: v for k, v in st.locals.items() if k in free and not k.startswith("__")}
+        st.locals[node.name] = Closure(node, defaults, env)
         return [st]
 
     def ordinal_of(self, node):
